@@ -260,6 +260,8 @@ type badPos struct {
 	// pathAffected: roots that still reach the field after every path key was applied (a selected type
 	// that is also nested: the path keys through the outer type say nothing about the inner type itself)
 	pathAffected []string
+	// fieldName: the name of the unmappable field (default BadField)
+	fieldName string
 	// one path-form exclusion key per occurrence (README: Root.Field.Sub), by root
 	pathKeys func(field string) []string
 }
@@ -296,6 +298,10 @@ var badPositions = []badPos{
 	{name: "selected-type-nested-in-selected-type", msg: "SelInner", pathAffected: []string{"SelInner"}, pathKeys: func(f string) []string {
 		return []string{"SelOuter.SoIn." + f, "SelOuter.SoList." + f}
 	}},
+	// the unmappable field is called like the synthetic fields of a map entry, next to a string-keyed map
+	{name: "named-value-next-to-map", msg: "RootB", fieldName: "value", pathKeys: func(f string) []string { return []string{"RootB." + f} }},
+	{name: "named-key-next-to-map", msg: "RootC", fieldName: "key", first: true, pathKeys: func(f string) []string { return []string{"RootC." + f} }},
+	{name: "named-value-in-map-value", msg: "MV", fieldName: "value", pathKeys: func(f string) []string { return []string{"RootC.CVals." + f} }},
 	{name: "embedded", msg: "EmbX", pathKeys: nil},
 	// README: options below an embedded field are keyed by the name of the embedding message
 	{name: "embedded-in-element", msg: "EmbY", pathKeys: func(f string) []string { return []string{"Holder." + f} }},
@@ -319,7 +325,11 @@ func withBad(base *spec.Program, pos badPos, k badKind) (*spec.Program, string) 
 			maxNum = f.Num
 		}
 	}
-	bf := k.field("BadField", maxNum+1)
+	fname := "BadField"
+	if pos.fieldName != "" {
+		fname = pos.fieldName
+	}
+	bf := k.field(fname, maxNum+1)
 	bf.Oneof = pos.oneof
 	if pos.first {
 		m.Fields = append([]spec.Field{bf}, m.Fields...)
